@@ -176,6 +176,25 @@ def suite_ops(ctx, case):
             ctx.corr('ops', sub, drv.ask('ma.getpair %d %d %d' % (kk, i, j)), fl(g1), rtol=tol, scale=scale, what='A[a,b]')
             sym = k != 'setpair' or np.array_equal(A[A.types[j], A.types[i]], g1)
             ctx.pred('ops', sub, sym, 'A[a,b] != A[b,a] after assignment', key='C13:setitem-symmetric')
+    # integers are not type names (unless the type list contains them): a position used as a key is an unknown type
+    if objs:
+        A = objs[0]
+        for key in (0, np.int64(A.rank - 1)):
+            before = A.data.copy()
+            try:
+                A[key, A.types[0]]; r1 = 'no error'
+            except ValueError:
+                r1 = 'ERR ValueError'
+            except Exception as e:
+                r1 = 'raised ' + type(e).__name__
+            try:
+                A[A.types[0], key] = np.zeros(A.length); r2 = 'no error'
+            except ValueError:
+                r2 = 'ERR ValueError'
+            except Exception as e:
+                r2 = 'raised ' + type(e).__name__
+            ctx.pred('ops', {'ops': case['ops'], 'read': 'intkey'}, r1 == 'ERR ValueError' and r2 == 'ERR ValueError' and bool(np.array_equal(A.data, before, equal_nan=True)),
+                     'an integer position used as a type name: read -> %s, assignment -> %s (ValueError expected, nothing written)' % (r1, r2), key='C13:unknown-type')
     # unknown type on read
     if objs:
         A = objs[0]
@@ -308,10 +327,22 @@ def gen_identity_case(rng):
     ops.append({'op': 'invert', 'k': rng.choice([0, live - 1]), 'inplace': rng.random() < 0.5})
     return {'ops': ops}
 
+def gen_tinyinv_case(rng):
+    """well-conditioned matrices whose ENTRIES are small (1e-3 .. 1e-8: determinants far below any absolute threshold) or large,
+    inverted in and out of place and multiplied with their inverse"""
+    n = rng.choice([1, 2, 3, 4, 5]); L = rng.choice([1, 2, 4])
+    sc = 10 ** rng.choice([-3, -4, -5, -6, -7, -8, 3, 5])
+    data = [float('%.6g' % (v * sc)) for v in rnd_matrix(rng, L, n)]
+    ops = [{'op': 'new', 'L': L, 'n': n, 'sp': rng.choice(['R', 'F', 'N']), 'data': data}]
+    ops.append({'op': 'invert', 'k': 0, 'inplace': False})
+    ops.append({'op': 'copy', 'k': 0})
+    ops.append({'op': 'invert', 'k': 2, 'inplace': True})
+    return {'ops': ops}
+
 def generate(ctx):
     max_ops = ctx.n(10, 30); maxL = ctx.n(16, 64)
     for q in range(ctx.n(250, 3000)):
-        c = gen_identity_case(ctx.rng) if q % 6 == 5 else (gen_int_case(ctx.rng) if q % 12 == 3 else (gen_shortleft_case(ctx.rng) if q % 12 == 9 else (gen_tinydiv_case(ctx.rng) if q % 12 == 1 else gen_case(ctx.rng, max_ops, maxL))))
+        c = gen_tinyinv_case(ctx.rng) if q % 12 == 7 else gen_identity_case(ctx.rng) if q % 6 == 5 else (gen_int_case(ctx.rng) if q % 12 == 3 else (gen_shortleft_case(ctx.rng) if q % 12 == 9 else (gen_tinydiv_case(ctx.rng) if q % 12 == 1 else gen_case(ctx.rng, max_ops, maxL))))
         kinds = [o['op'] for o in c['ops']]
         nontriv = len(c['ops']) >= 5 and any(o.get('inplace') for o in c['ops'])
         tags = ['rank=%d' % c['ops'][0]['n']]
